@@ -70,6 +70,9 @@ type VC struct {
 	assumptionsUsed map[string]bool
 	heap0shared map[string]Term
 	globalsUsed map[string]bool
+	canaries []*Obligation
+	knownExcuses []*KnownFinding
+	excused map[string]*excuseInfo
 	loopsDone map[*ssa.Function]bool
 	ordDone map[*ssa.Function]bool
 }
